@@ -282,11 +282,21 @@ pub fn c07(ctx: &Ctx, begin: &mut dyn FnMut(J)) -> Outcome {
                     if s == e {
                         continue;
                     }
-                    let got: Vec<(u32, u32)> = rd
-                        .get_zoom_interval(&c.name, s, e, *res)
-                        .map_err(|e| e.to_string())?
-                        .map(|z| z.map(|z| (z.start, z.end)).map_err(|e| e.to_string()))
-                        .collect::<Result<_, _>>()?;
+                    // one query in four goes through the by-value twin of the call (a separate body in the reader)
+                    let got: Vec<(u32, u32)> = if r.chance(1, 4) {
+                        out.count("zoom_queries_by_value_reader", 1);
+                        BigWigRead::open(Cursor::new(bytes.clone()))
+                            .map_err(|e| e.to_string())?
+                            .get_zoom_interval_move(&c.name, s, e, *res)
+                            .map_err(|e| e.to_string())?
+                            .map(|z| z.map(|z| (z.start, z.end)).map_err(|e| e.to_string()))
+                            .collect::<Result<_, _>>()?
+                    } else {
+                        rd.get_zoom_interval(&c.name, s, e, *res)
+                            .map_err(|e| e.to_string())?
+                            .map(|z| z.map(|z| (z.start, z.end)).map_err(|e| e.to_string()))
+                            .collect::<Result<_, _>>()?
+                    };
                     out.count("zoom_queries", 1);
                     let must: Vec<(u32, u32)> = mine.iter().filter(|z| model::overlaps(z.start, z.end, s, e)).map(|z| (z.start, z.end)).collect();
                     let may: Vec<(u32, u32)> = mine.iter().filter(|z| z.end >= s && z.start <= e).map(|z| (z.start, z.end)).collect();
@@ -399,11 +409,21 @@ pub fn c08(ctx: &Ctx, begin: &mut dyn FnMut(J)) -> Outcome {
                     if s == e {
                         continue;
                     }
-                    let got: Vec<(u32, u32)> = rd
-                        .get_zoom_interval(&c.name, s, e, *res)
-                        .map_err(|e| e.to_string())?
-                        .map(|z| z.map(|z| (z.start, z.end)).map_err(|e| e.to_string()))
-                        .collect::<Result<_, _>>()?;
+                    // one query in four goes through the by-value twin of the call (a separate body in the reader)
+                    let got: Vec<(u32, u32)> = if r.chance(1, 4) {
+                        out.count("zoom_queries_by_value_reader", 1);
+                        BigBedRead::open(Cursor::new(bytes.clone()))
+                            .map_err(|e| e.to_string())?
+                            .get_zoom_interval_move(&c.name, s, e, *res)
+                            .map_err(|e| e.to_string())?
+                            .map(|z| z.map(|z| (z.start, z.end)).map_err(|e| e.to_string()))
+                            .collect::<Result<_, _>>()?
+                    } else {
+                        rd.get_zoom_interval(&c.name, s, e, *res)
+                            .map_err(|e| e.to_string())?
+                            .map(|z| z.map(|z| (z.start, z.end)).map_err(|e| e.to_string()))
+                            .collect::<Result<_, _>>()?
+                    };
                     out.count("zoom_queries", 1);
                     let must: Vec<(u32, u32)> = mine.iter().filter(|z| model::overlaps(z.start, z.end, s, e)).map(|z| (z.start, z.end)).collect();
                     let may: Vec<(u32, u32)> = mine.iter().filter(|z| z.end >= s && z.start <= e).map(|z| (z.start, z.end)).collect();
